@@ -279,7 +279,7 @@ class Gen:
             decl_names = [e["n"] for e in env.pending["names"]]
             env.pending = None
         if len(env.lets) >= 2 and env.kind != "mod" and (w in (None, "nonlocal")) and r.random() < 0.3:
-            # a name bound by an outer let of the same Python scope: elided by hy
+            # names bound by outer lets of the same Python scope: elided by hy
             outer_names = set()
             for fr in env.lets[:-1]:
                 outer_names |= fr
@@ -287,7 +287,7 @@ class Gen:
             outer_names -= set(decl_names)
             if outer_names:
                 w = "nonlocal"
-                decl_names.append(r.choice(sorted(outer_names)))
+                decl_names += r.sample(sorted(outer_names), r.randint(1, len(outer_names)))
                 r.shuffle(decl_names)
         if decl_names:
             body.append(S.Decl(w, *decl_names))
@@ -341,6 +341,9 @@ def decl_facts(mod, res):
             k = n.get("k")
             if k == "decl":
                 kinds = set()
+                el = [bool(e.get("elided")) for e in n["names"]]
+                if any(x and y for x, y in zip(el, el[1:])):
+                    facts["elided_adjacent"] = True
                 for e in n["names"]:
                     facts["n"] += 1
                     if e.get("elided"):
@@ -401,11 +404,154 @@ def max_depth(node, d=0):
     return best
 
 
+# --------------------------------- stratum: multi-name declarations with elision
+#
+# One (nonlocal n1 .. nk), k = 2-4, written in a let nested in further lets of
+# the same function, in which >= 2 ADJACENT names are bound by those enclosing
+# lets (hy elides them) mixed, in every order, with names whose binding lies
+# outside the function (enclosing function local, module variable, outer let).
+
+NAMES5 = ["a", "b", "c", "d", "e"]
+
+
+def multi_elide_program(rng):
+    r = rng
+    k = [0]
+    sid = [0]
+
+    def K():
+        k[0] += 1
+        return S.Int(k[0])
+
+    def site():
+        sid[0] += 1
+        return sid[0]
+
+    names = list(NAMES5)
+    r.shuffle(names)
+    nlet = r.choice([2, 2, 3])
+    let_names = names[:nlet]                    # bound by enclosing lets of f1 -> elided
+    rest = names[nlet:]
+    outside = rest[:r.randint(0, min(2, len(rest)))]   # bound outside f1 -> really declared
+    inner_own = [n for n in rest if n not in outside][:1]   # bound by the innermost let
+    # order: every permutation in which some two let names are adjacent
+    decl = let_names + outside
+    for _ in range(20):
+        r.shuffle(decl)
+        if any(decl[i] in let_names and decl[i + 1] in let_names for i in range(len(decl) - 1)):
+            break
+    # enclosing lets: all names in one let, or split over two nested lets
+    split = r.random() < 0.5 and nlet >= 2
+    groups = [let_names[:1], let_names[1:]] if split else [let_names]
+    kinds = {}
+    for n in outside:
+        kinds[n] = r.choice(["fn", "mod", "let"])
+    has_f0 = any(v == "fn" for v in kinds.values()) or r.random() < 0.3
+    innermost_binds = [[S.TN(n), K()] for n in (inner_own or ["e" if "e" not in decl else "d"])
+                       if n not in decl] or [[S.TN("zq"), K()]]
+    inner_body = [S.Decl("nonlocal", *decl)]
+    for n in r.sample(decl, len(decl)):
+        if r.random() < 0.8:
+            inner_body.append(S.Set(S.TN(n), K()))
+        inner_body.append(S.Log(site(), S.Ref(n)))
+    node = S.Let(innermost_binds, *inner_body)
+    if r.random() < 0.3:        # one more let level in between
+        node = S.Let([[S.TN("zr"), K()]], node)
+    for grp in reversed(groups):
+        after = [S.Log(site(), S.Ref(n)) for n in grp]
+        node = S.Let([[S.TN(n), K()] for n in grp], node, *after)
+    f1_body = [node] + [S.Log(site(), S.Ref(n)) for n in outside]
+    f1 = S.Fn("f1", [], *f1_body)
+    call1 = [f1, S.Call(S.Ref("f1"))] + [S.Log(site(), S.Ref(n)) for n in outside]
+    if r.random() < 0.4:
+        call1 += [S.Call(S.Ref("f1"))] + [S.Log(site(), S.Ref(n)) for n in outside]
+    fn_level = [n for n in outside if kinds[n] == "fn"]
+    let_level = [n for n in outside if kinds[n] == "let"]
+    mod_level = [n for n in outside if kinds[n] == "mod"]
+    inner = call1
+    if has_f0:
+        inner = [S.Fn("f0", [], *([S.Set(S.TN(n), K()) for n in fn_level] + call1)), S.Call(S.Ref("f0"))]
+    else:
+        mod_level += fn_level
+    if let_level:
+        inner = [S.Let([[S.TN(n), K()] for n in let_level], *inner,
+                       *[S.Log(site(), S.Ref(n)) for n in let_level])]
+    body = [S.Set(S.TN(n), K()) for n in mod_level] + inner + [S.Log(site(), S.Ref(n)) for n in mod_level]
+    return S.Mod(*body)
+
+
+def finish_case(mod, extra=None):
+    res = S.resolve(mod)
+    if res.carve:
+        return None
+    facts = decl_facts(mod, res)
+    try:
+        py = "\n".join(S.to_py(mod["body"], res.binders))
+    except ValueError:
+        return None
+    case = {"hy": S.to_hy(mod), "py": py, "facts": facts, "depth": max_depth(mod), "ir": S.strip(mod)}
+    if extra:
+        case.update(extra)
+    return case
+
+
+# ------------------------------------------- regression section (repaired mechanisms)
+
+def regression_programs():
+    I, R, L, T = S.Int, S.Ref, S.Log, S.TN
+    out = []
+    # d16bf94 class-scope-treated-as-enclosing
+    out.append(("class-scope-treated-as-enclosing", S.Mod(
+        S.Set(T("a"), I(1)),
+        S.Cls("C1", S.Set(T("a"), I(2)),
+              S.Fn("f1", [], S.Decl("nonlocal", "a"), S.Set(T("a"), I(3))), S.Call(R("f1")), L(1, R("a"))),
+        L(2, R("a")))))
+    out.append(("class-scope-treated-as-enclosing", S.Mod(
+        S.Set(T("a"), I(1)),
+        S.Let([[T("a"), I(4)]],
+              S.Cls("C1", S.Decl("global", "a"), S.Set(T("a"), I(7)),
+                    S.Fn("f1", [], L(1, R("a"))), S.Call(R("f1"))),
+              L(2, R("a"))),
+        L(3, R("a")))))
+    # be16b0b declared-after-use-in-nested-function
+    for w in ("global", "nonlocal"):
+        out.append(("declared-after-use-in-nested-function", S.Mod(
+            S.Set(T("a"), I(1)),
+            S.Fn("f1", [], S.Fn("f2", [], L(1, R("a"))), S.Decl(w, "a"), S.Set(T("a"), I(5)), S.Call(R("f2"))),
+            S.Call(R("f1")), L(2, R("a")))))
+    # f326114 nonlocal-multi-name-let-elision-skips
+    out.append(("nonlocal-multi-name-let-elision-skips", S.Mod(
+        S.Fn("f1", [], S.Let([[T("c"), I(2)], [T("a"), I(3)]],
+                             S.Let([[T("b"), I(4)]], S.Decl("nonlocal", "c", "a"), S.Set(T("c"), I(5)),
+                                   L(1, R("a")), L(2, R("c"))),
+                             L(3, R("c")))),
+        S.Call(R("f1")))))
+    out.append(("nonlocal-multi-name-let-elision-skips", S.Mod(
+        S.Set(T("d"), I(1)),
+        S.Fn("f1", [], S.Let([[T("a"), I(2)], [T("b"), I(3)], [T("c"), I(4)]],
+                             S.Let([[T("e"), I(5)]], S.Decl("nonlocal", "a", "b", "d", "c"),
+                                   S.Set(T("b"), I(6)), S.Set(T("d"), I(7)), L(1, R("a")), L(2, R("b")),
+                                   L(3, R("c"))),
+                             L(4, R("b")))),
+        S.Call(R("f1")), L(5, R("d")))))
+    return out
+
+
 def cases(seed, tier, shard, nshards):
+    for j, (key, mod) in enumerate(regression_programs()):
+        if j % nshards == shard:
+            case = finish_case(mod, {"regress": key})
+            assert case is not None, key
+            yield case
     i = 0
     while True:
         rng = rng_for(seed, ID, shard, i)
         i += 1
+        if i % 5 == 0:
+            case = finish_case(multi_elide_program(rng), {"stratum": "multi-elide"})
+            if case is not None:
+                yield case
+            continue
         g = Gen(rng, 4)
         if tier == "thorough":
             g.budget = 26       # more statements / scopes per program (depth stays 1-4)
@@ -466,7 +612,7 @@ def case_key(case):
 def _globals(d):
     out = {}
     for k, v in d.items():
-        if k in POOL:
+        if k in NAMES5:
             out[k] = token(v)
     return out
 
@@ -548,6 +694,12 @@ def run_case(case):
     facts = case.get("facts", {})
     why, tag = compare(h, p)
     classes = ["depth:%d" % case.get("depth", 0)]
+    if case.get("regress"):
+        classes.append("regress:" + case["regress"])
+    if case.get("stratum"):
+        classes.append("stratum:" + case["stratum"])
+        if facts.get("elided_adjacent"):
+            classes.append("decl-elided-adjacent-pair")
     classes += ["target:" + k for k in facts.get("kinds", [])]
     for f in ("mixed", "deep", "elided", "in_let", "in_cls", "unbound"):
         if facts.get(f):
